@@ -771,6 +771,77 @@ theorem bkOpen_safe (f : Bytes) : Safe bkOpenMaxAlloc (bkOpen f) := by
   refine safe_bind (safe_alloc (by unfold bkOpenMaxAlloc bkLayoutBytes; omega)) (fun _ _ => ?_)
   exact safe_bind (safe_mono (bkPrefixLoop_safe _ _) (Nat.zero_le _)) (fun _ _ => safe_ok _ _)
 
+/-! ## bucketteer: `Reader.Has` -/
+
+/-- `prefixToOffset[prefix]`: the table starts out as all-ones, later pairs overwrite earlier ones -/
+def bkFind : List (Nat × Nat) → Nat → Option Nat
+  | [], _ => none
+  | (p, o) :: rest, q =>
+    match bkFind rest q with
+    | some r => some r
+    | none => if p = q then some o else none
+
+def bkLookup (tbl : List (Nat × Nat)) (q : Nat) : Nat :=
+  match bkFind tbl q with
+  | some o => o
+  | none => 2 ^ 64 - 1
+
+/-- `searchEytzinger(0, numHashes, wanted, readUint64Le(bucketReader, index*8))`: `nbytes` is the size the bucket's
+    section reader was given (`numHashes*8` in uint32 arithmetic) -/
+def bkSearch (f : Bytes) (start nbytes max x : Nat) (index : Nat) : Res Bool :=
+  if _h : index < max then
+    Res.bind (alloc 8) fun _ =>
+    if index * 8 + 8 > nbytes then fail "EOF" else
+    match readAt f (start + index * 8) 8 with
+    | none => fail "EOF"
+    | some b =>
+      if unle b = x then ok true
+      else bkSearch f start nbytes max x (2 * index + 1 + (if unle b < x then 1 else 0))
+  else ok false
+termination_by max - index
+decreasing_by split <;> omega
+
+/-- `Has(sig)`: `p` = the first two bytes of the signature as a little-endian number, `wanted` = xxhash64(sig) -/
+def bkHas (f : Bytes) (h : BkHeader) (p wanted : Nat) : Res Bool :=
+  let offset := bkLookup h.table p
+  if offset = 2 ^ 64 - 1 then ok false else do
+  alloc 4
+  if offset ≥ 2 ^ 63 then fail "EOF" else
+  match readAt f (h.headerTotal + offset) 4 with
+  | none => fail "EOF"
+  | some nb => bkSearch f (h.headerTotal + offset + 4) ((unle nb * 8) % 2 ^ 32) (unle nb) wanted 0
+
+theorem bkSearch_safe (f : Bytes) (start nbytes max x : Nat) :
+    ∀ (d index : Nat), max - index ≤ d → Safe 8 (bkSearch f start nbytes max x index) := by
+  intro d
+  induction d with
+  | zero =>
+    intro index hd
+    unfold bkSearch
+    rw [dif_neg (by omega)]
+    exact safe_ok _ _
+  | succ d ih =>
+    intro index hd
+    unfold bkSearch
+    split
+    · refine safe_bind' (safe_alloc (Nat.le_refl _)) (fun _ _ => ?_)
+      split; · exact safe_fail _ _
+      split; · exact safe_fail _ _
+      split
+      · exact safe_ok _ _
+      · apply ih
+        split <;> omega
+    · exact safe_ok _ _
+
+theorem bkHas_safe (f : Bytes) (h : BkHeader) (p wanted : Nat) : Safe 8 (bkHas f h p wanted) := by
+  unfold bkHas
+  simp only []
+  split; · exact safe_ok _ _
+  refine safe_bind (safe_alloc (by omega)) (fun _ _ => ?_)
+  split; · exact safe_fail _ _
+  split; · exact safe_fail _ _
+  exact bkSearch_safe _ _ _ _ _ _ _ (Nat.le_refl _)
+
 /-! ## blocktimeindex: `unmarshalBinary`, `Get` -/
 
 /-- "blocktimeindex" -/
